@@ -182,6 +182,8 @@ CHECKS["C05"] = NS(
         "copy_ is generated for q<-q of equal qtype (the code asserts it) and plain<-q",
         "steps whose float counterpart raises are discarded (float-invalid program), and view() must also be valid on a float twin with the size/stride the wrapper reports",
         "whether a result is still quantized is never asserted: falling back to float is always allowed",
+        "values stay representable: a rescaling whose float result overflows the dtype, and tensors whose scale is no longer a finite positive number (overflow / underflow after repeated rescaling), end the part of the program that uses them",
+        "aliases: where the float program has an alias (view, detach) the quantized program may hold an independent copy; in-place updates are required on the object they are called on",
     ],
     PLAN={"quick": [("alias", 4, {}), ("contract", 8, {}), ("pairs", 8, {}), ("program", 12, {"n": 1600, "max_steps": 8})],
           "thorough": [("alias", 4, {}), ("contract", 8, {}), ("pairs", 8, {}), ("program", 16, {"n": 12000, "max_steps": 12})]},
